@@ -81,10 +81,13 @@ def rules_C02(ctx):
 def rules_C13(ctx):
     r_shrink.rule_no_growth_in_shrink(ctx)
     r_shrink.rule_shrink_guards(ctx)
+    r_layout.rule_capacity_roots(ctx)
 
 
 def rules_C11(ctx):
     r_layout.rule_capacity_agreement(ctx)
+    r_layout.rule_size_hint_use(ctx)
+    r_layout.rule_capacity_roots(ctx)
     r_layout.rule_reserve_post(ctx)
     r_layout.rule_layout_agreement(ctx)
 
@@ -109,6 +112,7 @@ def rules_C06(ctx):
     r_size.rule_checked_ctors(ctx)
     r_size.rule_size_taint(ctx)
     r_size.rule_layout_checked(ctx)
+    r_size.rule_room(ctx)
     ctx.take_ts(["R-erratomic", "R2"])
     r_layout.rule_null_checks(ctx)
 
@@ -160,6 +164,8 @@ def rules_C20(ctx):
 
 def rules_C08(ctx):
     r_reach.rule_C08(ctx)
+    # to_lean_string on a LeanString is the shallow clone, whatever the storage
+    r_num.rule_dispatch(ctx, want=["LeanString"])
     ctx.take_ts(["P1", "DUP"])
 
 
@@ -167,6 +173,7 @@ def rules_C09(ctx):
     r_reach.rules_C09(ctx)
     # the amount handed to reserve is the real growth (an inflated amount spills inline text to the heap)
     r_growth.rule_reserve_amount(ctx)
+    r_layout.rule_capacity_roots(ctx)
     # integers: the requested capacity is exactly the digit count (C14 proves digit count = text length)
     r_num.rule_into_repr(ctx)
 
